@@ -685,6 +685,128 @@ def run_C07(ctx):
     return vlib.finish(ctx, confirm_all)
 
 
+vlib.TRACE_CFG["Trace_Determ"] = "INIT TraceInit\nNEXT TraceNext\nINVARIANT WriteOut\nCHECK_DEADLOCK FALSE\n"
+
+
+def describe_determ(ev, obs, entry):
+    what = ev.get("what")
+    inp = ev.get("input") or {}
+    if what == "authz":
+        key = "policies [%s] %s" % ("; ".join("%s: %s" % (p["id"], pretty.sp(p["policy"])) for p in (inp.get("policies") or [])[:3]),
+                                    "[env %s]" % envhash(inp.get("env")))
+    elif what in ("policy_json", "policy_text", "policyset_json"):
+        key = "".join(chr(c) for c in (inp.get("json") or inp.get("text") or []))[:400]
+    else:
+        key = hashlib.sha1(json.dumps(inp, sort_keys=True).encode()).hexdigest()[:10]
+    a, b = entry.get("firstobs") or {}, entry.get("obs") or {}
+    if not a and isinstance(obs, list) and obs:
+        a = obs[0]
+        b = next((o for o in obs if o.get("h") != a.get("h")), {})
+    return "determ %s on %s => repetition %s differs from the first: first `%s`, then `%s`" % (
+        what, key, entry.get("rep"), a.get("s", "")[:300], b.get("s", "")[:300])
+
+
+KINDS["determ"] = dict(module="Trace_Determ", shrink=None, describe=describe_determ)
+
+
+@prop("C14")
+def run_C14(ctx):
+    ctx.rule = ("spec/Determinism.tla: the history of observations must be a function of the input. The driver repeats every "
+                "operation R times on freshly built / freshly decoded objects (so that Go's per-loop map order is resampled) with "
+                "rotated insertion orders of policies and entities: cedar.Authorize (decision, reason set, error set WITH "
+                "messages; policy sets of 12 policies, record literals with several failing fields), batch results, "
+                "MarshalCedar / MarshalJSON of policies decoded from JSON (record literals and annotations with several keys) and "
+                "from text, policy sets, entity maps, values (colliding set members), and decode -> re-encode. Every repetition "
+                "is one Observe step validated by TLC (Trace_Determ). M1: MC_Authz (the outcome is a function of the multiset, "
+                "for every iteration order). distinct = distinct inputs.")
+    ctx.assumptions = ["R repetitions resample map orders statistically: a two-way choice escapes R=30 repetitions with "
+                       "probability 2^-29", "reasons and errors are compared as sets"]
+    q = ctx.quick
+    vlib.tlc_check(ctx, "m1.loop", "MC_Authz",
+                   mc_cfg(["Correct", "Collected", "Statement"], ["Monotone", "Terminates"], {"MaxN": 4}, spec="Spec"), ["mc/MC_Authz.tla"])
+    add_m3(ctx, "determ", "repeat", "determ", 160 if q else 4000, params={"reps": 30 if q else 60})
+    return vlib.finish(ctx, confirm_all)
+
+
+vlib.TRACE_CFG["Trace_Concurrent"] = "INIT TraceInit\nNEXT TraceNext\nINVARIANT WriteOut\nCHECK_DEADLOCK FALSE\n"
+
+
+def concurrent_run(ctx, race_bin, name, seed, goroutines, ops):
+    """one recorded concurrent session under the race detector; returns (trace file, race reports)"""
+    import subprocess, glob
+    d = ctx.dir(name)
+    trace = os.path.join(d, "trace.ndjson")
+    env = dict(os.environ, GORACE="log_path=%s halt_on_error=0 exitcode=0" % os.path.join(d, "race"))
+    p = subprocess.run([race_bin, "concurrent", "-seed", str(seed), "-goroutines", str(goroutines), "-ops", str(ops), "-out", trace],
+                       env=env, stdout=subprocess.PIPE, stderr=subprocess.STDOUT, text=True, timeout=3600)
+    if p.returncode != 0:
+        raise Broken("%s: concurrent driver failed (%d): %s" % (name, p.returncode, p.stdout[-2000:]))
+    reports = [f for f in glob.glob(os.path.join(d, "race.*")) if "DATA RACE" in open(f, errors="replace").read()]
+    return trace, reports
+
+
+@prop("C19")
+def run_C19(ctx):
+    ctx.level = "exploration"
+    ctx.rule = ("Recorded sessions: G goroutines share one PolicySet, EntityMap, request list and value list and perform random "
+                "read-only operations (Authorize, IsAuthorized, batch.Authorize, MarshalCedar/MarshalJSON of the set and of "
+                "policies, Get/All/Map, value accessors and encoders, EntityMap.MarshalJSON, policy accessors) in a binary built "
+                "with -race. Every call/return is an event (goroutine, own sequence number, operation, observation); TLC "
+                "validates every event against spec/Concurrent.tla: authorizations against the Authz specification, the other "
+                "operations against their sequential result, snapshots (deep reflection digest of all shared inputs incl. "
+                "unexported fields, taken before, after and around each kind of operation) against the first. A race report of "
+                "the Go race detector is a violation. evaluations = recorded calls; distinct_nontrivial = distinct "
+                "(operation, argument, observation) triples.")
+    ctx.assumptions = ["data-race freedom is decided by the Go race detector on the recorded runs (borrowed oracle); the "
+                       "specification decides functional equivalence with sequential execution and immutability of the inputs",
+                       "interleavings are those the Go scheduler produced (with random Gosched) in the recorded runs"]
+    q = ctx.quick
+    race_bin = vlib.build_harness(race=True)
+    plan = [(8, 150), (16, 150), (64, 60)] if q else [(8, 2000), (16, 1500), (32, 1000), (64, 500), (128, 300)] * 3
+    traces, reports = [], []
+    for k, (g, n) in enumerate(plan):
+        t, r = concurrent_run(ctx, race_bin, "session%d" % k, ctx.seed * 100 + k, g, n)
+        traces.append(t)
+        reports += r
+    distinct = set()
+    nev = 0
+    for t in traces:
+        for ev in vlib.read_ndjson(t)[1:]:
+            nev += 1
+            distinct.add(json.dumps([ev.get("kind"), ev.get("arg"), ev.get("obs")], sort_keys=True))
+    ctx.cov["evaluations"] += nev
+    ctx.cov["distinct_nontrivial"] += len(distinct)
+    first = vlib.read_ndjson(traces[0])
+    ctx.sample(dict(stage="session0", kind="recorded concurrent call", events=first[30:33]))
+    ctx.extra["race_reports"] = len(reports)
+    ctx.extra["goroutine_plans"] = plan
+    res = vlib.tlc_validate(ctx, "sessions", "Trace_Concurrent", traces)
+    rdir = os.path.join(vlib.VERIF, "replays", "C19")
+    for rep in reports:
+        os.makedirs(rdir, exist_ok=True)
+        dst = os.path.join(rdir, "race-%s.txt" % hashlib.sha1(open(rep, errors="replace").read().encode()).hexdigest()[:10])
+        import shutil
+        shutil.copy(rep, dst)
+        txt = open(rep, errors="replace").read()
+        where = [l.strip() for l in txt.splitlines() if "cedar-go" in l][:2]
+        ctx.candidates.append(dict(kind="race", stage="race detector", descr="data race reported by the Go race detector: %s" % "; ".join(where),
+                                   case={"report": dst}))
+    for f, bad in res:
+        if not bad:
+            continue
+        events = vlib.read_ndjson(f)
+        os.makedirs(rdir, exist_ok=True)
+        for b in bad[:20]:
+            ev = events[b["event"] - 1]
+            descr = "concurrent call g=%s seq=%s %s(%s) returned %s, which is not its sequential result" % (
+                ev.get("g"), ev.get("seq"), ev.get("kind"), ev.get("arg"), json.dumps(ev.get("obs"))[:200])
+            if ev.get("kind") == "snapshot":
+                descr = "shared inputs changed: snapshot after %s differs from the initial one" % ev.get("after")
+            ctx.candidates.append(dict(kind="conc", stage="sessions", descr=descr, case={"header": events[0], "event": ev}))
+    # recorded events are evidence of what the real code did; they are not re-executed (a schedule cannot be replayed)
+    return vlib.finish(ctx, None)
+
+
 # ====================================================================== replay of a stored violation
 
 def replay(ctx, path):
@@ -695,6 +817,10 @@ def replay(ctx, path):
         cands = [dict(kind="eval", stage="replay", env=c["env"], expr=e) for e in c["exprs"]]
     elif kind in KINDS:
         cands = [dict(kind=kind, stage="replay", event=c)]
+    elif kind in ("race", "conc"):
+        # a schedule cannot be replayed: the recorded report / event is shown and the sessions are run again
+        print("recorded: %s" % r.get("descr"))
+        return REGISTRY[r["property"]](ctx)
     else:
         raise Broken("unknown replay kind %r" % kind)
     try:
